@@ -582,6 +582,8 @@ def run(ctx):
     stream_memo_generic(ctx, cirq, 150 if quick else 1500)
     stream_memo_circuits(ctx, cirq, 150 if quick else 1500)
     stream_corpus(ctx, mods, specs)
+    pop = Population(mods, specs)
+    ex = stream_classes(ctx, mods, specs, pop)
 
 
 def replay(ctx, data):
@@ -629,3 +631,561 @@ def _tuplify(x):
                 return ('circ', [_tuplify(y) for y in x[1]])
             return tuple(x)
     return x
+
+
+# ------------------------------------------------------------------------------------------------ class population
+def flat(o):
+    return list(o) if isinstance(o, list) else [o]
+
+
+class Population:
+    """Every entry of the five resolver caches with its stored examples (DESIGN 5/C11, exploration part)."""
+
+    def __init__(self, mods, specs):
+        self.mods, self.cirq = mods, mods['cirq']
+        self.ns = eval_namespace(mods)
+        self.entries = []          # dict(spec, name, factory, is_type, stored=[objs], status)
+        self.by_type = collections.defaultdict(list)
+        self.all_named = {}        # (spec, file name) -> list of objects
+        for sp in specs:
+            for key in sp.all_test_data_keys():
+                name = os.path.basename(key)
+                for ext in ('.repr', '.repr_inward'):
+                    if os.path.exists(key + ext):
+                        try:
+                            with warnings.catch_warnings():
+                                warnings.simplefilter('ignore')
+                                objs = flat(eval(open(key + ext).read(), dict(self.ns), {}))
+                        except Exception:      # noqa  (reported by the corpus stream)
+                            continue
+                        self.all_named.setdefault((sp.name, name), []).extend(objs)
+                        for o in objs:
+                            self._harvest(o, 0)
+        for sp in specs:
+            for name, factory in sp.resolver_cache.items():
+                status = None
+                if name in sp.deprecated:
+                    status = 'deprecated in upstream spec'
+                elif name in sp.not_yet_serializable:
+                    status = 'not_yet_serializable in upstream spec'
+                elif name in getattr(sp, 'tested_elsewhere', []):
+                    status = 'tested_elsewhere in upstream spec'
+                is_type = isinstance(factory, type)
+                if is_type:
+                    stored = list(self.by_type.get(factory, []))
+                else:
+                    stored = [o for o in self.all_named.get((sp.name, name), [])]
+                self.entries.append(dict(spec=sp.name, name=name, factory=factory, is_type=is_type, stored=stored,
+                                         status=status, has_doc=any(os.path.exists(os.path.join(str(sp.test_data_path), name + e))
+                                                                    for e in ('.json', '.json_inward'))))
+
+    def _harvest(self, o, depth):
+        """stored examples, and the objects nested inside them, grouped by exact type"""
+        if depth > 4:
+            return
+        if hasattr(o, '_json_dict_') and not isinstance(o, type):
+            lst = self.by_type[type(o)]
+            if len(lst) < 12 and not any(x is o for x in lst):
+                lst.append(o)
+            try:
+                d = o._json_dict_()
+            except Exception:      # noqa
+                return
+            if isinstance(d, dict):
+                for v in d.values():
+                    self._harvest(v, depth + 1)
+        elif isinstance(o, (list, tuple, set, frozenset)):
+            for v in list(o)[:8]:
+                self._harvest(v, depth + 1)
+        elif isinstance(o, dict):
+            for k, v in list(o.items())[:8]:
+                self._harvest(k, depth + 1)
+                self._harvest(v, depth + 1)
+
+
+def custom_instances(mods, pop):
+    """instances for registered classes that have no stored example"""
+    cirq, cg = mods['cirq'], mods['cirq_google']
+    out = {}
+    gnp = pop.by_type.get(cg.GoogleNoiseProperties, [])
+    if gnp:
+        out['NoiseModelFromNoiseProperties'] = [cirq.NoiseModelFromNoiseProperties(gnp[0])]
+    return out
+
+
+class Mutator:
+    def __init__(self, mods, pop, rng):
+        self.mods, self.cirq, self.pop, self.rng = mods, mods['cirq'], pop, rng
+        import sympy
+        self.sympy = sympy
+
+    def qid_alts(self, q):
+        cirq = self.cirq
+        t = type(q)
+        try:
+            if t is cirq.LineQubit:
+                return [cirq.LineQubit(q.x + 1), cirq.LineQubit(q.x + 7)]
+            if t is cirq.LineQid:
+                return [cirq.LineQid(q.x + 1, q.dimension), cirq.LineQid(q.x, q.dimension + 1)]
+            if t is cirq.GridQubit:
+                return [cirq.GridQubit(q.row + 1, q.col), cirq.GridQubit(q.row, q.col + 2)]
+            if t is cirq.GridQid:
+                return [cirq.GridQid(q.row + 1, q.col, dimension=q.dimension), cirq.GridQid(q.row, q.col, dimension=q.dimension + 1)]
+            if t is cirq.NamedQubit:
+                return [cirq.NamedQubit(q.name + 'x'), cirq.NamedQubit('q10')]
+            if t is cirq.NamedQid:
+                return [cirq.NamedQid(q.name + 'x', q.dimension), cirq.NamedQid(q.name, q.dimension + 1)]
+        except Exception:      # noqa
+            pass
+        return [o for o in self.pop.by_type.get(t, []) if o != q][:2]
+
+    def alts(self, v, depth=0):
+        """typed alternatives for one field value (as a reader of the document sees it)"""
+        cirq, sympy = self.cirq, self.sympy
+        if isinstance(v, bool):
+            return [not v]
+        if isinstance(v, int):
+            return [c for c in (v + 1, v - 1, 0, 2, 3) if c != v]
+        if isinstance(v, float):
+            t = sympy.Symbol('vf_t')
+            return [c for c in (v + 0.25, -v, 0.0, 0.5, 1.0, 1 / 3, v * 1.5 + 0.125, t, 2 * t + 1) if not (isinstance(c, float) and c == v)]
+        if isinstance(v, complex):
+            return [v * 1j, v + 0.5, 1j, 0.5 - 0.25j]
+        if isinstance(v, str):
+            return [v + 'x', 'vf_m']
+        if isinstance(v, sympy.Basic):
+            return [sympy.Symbol('vf_u'), v + 1, 2 * v, 0.25]
+        if isinstance(v, cirq.Qid):
+            return self.qid_alts(v)
+        if isinstance(v, (list, tuple)):
+            mk = type(v) if type(v) in (list, tuple) else list
+            out = []
+            if v and all(isinstance(e, cirq.Qid) for e in v):
+                if len(v) >= 2:
+                    out.append(mk(list(v[1:]) + [v[0]]))
+                for a in self.qid_alts(v[0]):
+                    if a not in v:
+                        out.append(mk([a] + list(v[1:])))
+                        break
+                return out
+            if depth < 3:
+                for idx in sorted({0, len(v) - 1}) if v else []:
+                    for a in self.alts(v[idx], depth + 1)[:2]:
+                        w = list(v)
+                        w[idx] = a
+                        out.append(mk(w))
+            if len(v) >= 2:
+                out.append(mk(list(v[:-1])))
+                out.append(mk(list(reversed(v))))
+            return out
+        if isinstance(v, dict):
+            out = []
+            if depth < 3:
+                for k in list(v)[:2]:
+                    for a in self.alts(v[k], depth + 1)[:2]:
+                        w = dict(v)
+                        w[k] = a
+                        out.append(w)
+            return out
+        if isinstance(v, datetime.datetime):
+            return [v + datetime.timedelta(seconds=1.5)]
+        if hasattr(v, '_json_dict_') and not isinstance(v, type):
+            out = [o for o in self.pop.by_type.get(type(v), []) if not _safe_eq(o, v)][:2]
+            if depth < 2:
+                out += self.mutants(v, keep=2, tries=10, depth=depth + 1)
+            return out
+        return []
+
+    def view(self, x):
+        cirq = self.cirq
+        d0 = x._json_dict_()
+        return cirq.read_json(json_text=cirq.to_json(dict(d0)))
+
+    def build(self, cls, d, extra=None):
+        f = getattr(cls, '_from_json_dict_', None)
+        if extra:
+            d = dict(d, **extra)
+        if f is not None:
+            return f(**dict({'cirq_type': self.cirq.json_cirq_type(cls)}, **d))
+        return cls(**d)
+
+    def ctor_extras(self, cls, d):
+        """constructor arguments that the JSON dict does not mention (omitted-when-default fields)"""
+        out = []
+        try:
+            sig = inspect.signature(cls.__init__)
+        except (TypeError, ValueError):
+            return out
+        for p in list(sig.parameters.values())[1:]:
+            if p.name in d or p.kind in (p.VAR_POSITIONAL, p.VAR_KEYWORD) or p.default is inspect.Parameter.empty:
+                continue
+            dv, ann = p.default, str(p.annotation)
+            if isinstance(dv, (bool, int, float, str)) and not isinstance(dv, type):
+                cands = self.alts(dv)[:3]
+            elif dv is None or dv == ():
+                cands = []
+                if 'float' in ann or 'TParamVal' in ann:
+                    cands += [0.25, 1.5]
+                if 'int' in ann:
+                    cands += [1, 3]
+                if 'str' in ann:
+                    cands += ['vf_s']
+                if 'bool' in ann:
+                    cands += [True, False]
+                if 'Hashable' in ann or 'tags' in p.name:
+                    cands += [('vf_tag',)]
+            else:
+                cands = []
+            for c in cands:
+                out.append((p.name, c))
+        return out
+
+    def mutants(self, x, keep, tries, depth=0):
+        from cirq._compat import proper_eq
+        cls = type(x)
+        try:
+            with time_limit(5):
+                d = self.view(x)
+                if not isinstance(d, dict) or not _safe_eq(self.build(cls, d), x):
+                    return []
+        except Exception:      # noqa
+            return []
+        cands = []
+        for k in d:
+            for a in self.alts(d[k], depth):
+                cands.append((k, a, False))
+        for k, a in self.ctor_extras(cls, d):
+            cands.append((k, a, True))
+        self.rng.shuffle(cands)
+        # one candidate per field first, so that every field is varied before any is varied twice
+        seenk, first, rest = set(), [], []
+        for c in cands:
+            (first if c[0] not in seenk else rest).append(c)
+            seenk.add(c[0])
+        out, texts = [], set()
+        for k, a, extra in (first + rest)[:tries]:
+            try:
+                with time_limit(5), warnings.catch_warnings():
+                    warnings.simplefilter('ignore')
+                    m = self.build(cls, d, {k: a})
+                    if type(m) is not cls or _safe_eq(m, x) or not _safe_eq(m, m):
+                        continue
+                    key = repr(m)
+            except Exception:      # noqa   constructor rejected the mutated argument
+                continue
+            if key in texts:
+                continue
+            texts.add(key)
+            m_info = dict(field=k, value=repr(a)[:80], ctor_only=extra)
+            out.append((m, m_info))
+            if len(out) >= keep:
+                break
+        return [m for m, _ in out] if depth > 0 else out
+
+
+def _safe_eq(a, b):
+    from cirq._compat import proper_eq
+    try:
+        r = proper_eq(a, b)
+        return bool(r)
+    except Exception:      # noqa
+        return False
+
+
+def _hashable(x):
+    try:
+        hash(x)
+        return True
+    except TypeError:
+        return False
+
+
+class Explorer:
+    CHECKS = ('json', 'hash', 'repr', 'behaviour', 'pickle', 'copy', 'deepcopy', 'nested')
+
+    def __init__(self, ctx, mods, pop):
+        self.ctx, self.mods, self.cirq, self.pop = ctx, mods, mods['cirq'], pop
+        self.ns = eval_namespace(mods)
+        lenient = dict(self.ns)
+        for m in (mods['cirq'], getattr(mods['cirq'], 'work', None), getattr(mods['cirq'], 'ops', None),
+                  getattr(mods['cirq'], 'contrib', None)) + tuple(mods[v] for v in VENDORS):
+            if m is not None:
+                for n in dir(m):
+                    if not n.startswith('_'):
+                        lenient.setdefault(n, getattr(m, n))
+        self.ns_lenient = lenient
+        self.stats = collections.Counter()
+        self.repr_lenient_classes = set()
+        self.xproc = []          # (label, pickle bytes, json text)
+
+    # -- individual checks; each returns None (ok / not applicable) or a failure text
+    def c_json(self, x):
+        cirq = self.cirq
+        text = cirq.to_json(x)
+        y = cirq.read_json(json_text=text)
+        self._y, self._text = y, text
+        if not (_safe_eq(y, x) and _safe_eq(x, y)):
+            return f'read_json(to_json(x)) = {y!r} != x'
+        return None
+
+    def c_hash(self, x):
+        if not _hashable(x) or self._y is None:
+            return None
+        self.stats['hash_checked'] += 1
+        if hash(self._y) != hash(x):
+            return f'hash(read_json(to_json(x))) = {hash(self._y)} != hash(x) = {hash(x)} although the values are equal'
+        return None
+
+    def c_repr(self, x, name):
+        from cirq._compat import proper_repr
+        own = type(x).__module__.split('.')[0] in ('cirq', 'cirq_google', 'cirq_ionq', 'cirq_aqt', 'cirq_pasqal')
+        text = repr(x) if own else proper_repr(x)
+        err = None
+        for label, ns in (('upstream', self.ns), ('lenient', self.ns_lenient)):
+            ns2 = dict(ns)
+            if label == 'lenient':
+                mod = sys.modules.get(type(x).__module__)
+                if mod is not None:
+                    for k, v in vars(mod).items():
+                        ns2.setdefault(k, v)
+            try:
+                with warnings.catch_warnings():
+                    warnings.simplefilter('ignore')
+                    z = eval(text, ns2, {})
+                if _safe_eq(z, x):
+                    if label == 'lenient':
+                        self.repr_lenient_classes.add(name)
+                    return None
+                err = f'eval(repr(x)) = {z!r} != x'
+            except Exception as e:      # noqa
+                err = f'repr(x) = {text[:160]!r} does not evaluate: {type(e).__name__}: {e}'
+        return err
+
+    def _behaviour(self, x):
+        cirq = self.cirq
+        import numpy as np
+        out = {}
+
+        def attempt(label, f):
+            try:
+                out[label] = f()
+            except Exception as e:      # noqa
+                out[label] = 'raises ' + type(e).__name__
+        attempt('str', lambda: str(x))
+        if isinstance(x, (cirq.Gate, cirq.Operation, cirq.AbstractCircuit, cirq.Moment)):
+            attempt('keys', lambda: sorted(cirq.measurement_key_names(x)))
+            attempt('params', lambda: sorted(cirq.parameter_names(x)))
+            attempt('shape', lambda: tuple(cirq.qid_shape(x, ())))
+            shape = out.get('shape')
+            if isinstance(shape, tuple) and shape and int(np.prod(shape)) <= 32:
+                attempt('unitary', lambda: (lambda u: None if u is None else np.round(u, 9).tolist())(cirq.unitary(x, None)))
+        return out
+
+    def c_behaviour(self, x):
+        if self._y is None:
+            return None
+        import numpy as np
+        a, b = self._behaviour(x), self._behaviour(self._y)
+        for k in a:
+            va, vb = a[k], b.get(k)
+            if k == 'unitary' and va is not None and vb is not None and not isinstance(va, str) and not isinstance(vb, str):
+                if not np.allclose(np.array(va), np.array(vb), atol=1e-8):
+                    return f'cirq.unitary differs after the round trip'
+            elif va != vb:
+                if k == 'str' and (' at 0x' in str(va)):
+                    continue
+                return f'{k} differs after the round trip: {str(va)[:120]!r} vs {str(vb)[:120]!r}'
+        self.stats['behaviour_checked'] += 1
+        return None
+
+    def c_pickle(self, x, label):
+        hx = hash(x) if _hashable(x) else None      # history: the hash is cached before pickling
+        data = pickle.dumps(x)
+        p = pickle.loads(data)
+        if not (_safe_eq(p, x) and _safe_eq(x, p)):
+            return f'pickle.loads(pickle.dumps(x)) = {p!r} != x'
+        if hx is not None and hash(p) != hx:
+            return 'hash of the unpickled value differs'
+        if hx is not None and self._text is not None and len(self.xproc) < 4000:
+            self.xproc.append((label, data, self._text))
+        return None
+
+    def c_copy(self, x, deep):
+        hx = hash(x) if _hashable(x) else None
+        c = copy.deepcopy(x) if deep else copy.copy(x)
+        if not (_safe_eq(c, x) and _safe_eq(x, c)):
+            return f'copy = {c!r} != x'
+        if hx is not None and hash(c) != hx:
+            return 'hash of the copy differs'
+        return None
+
+    def nestings(self, x):
+        cirq = self.cirq
+        out = [[x, {'k': x}, [x, x]]]
+        op = None
+        if isinstance(x, cirq.Operation):
+            op = x
+        elif isinstance(x, cirq.Gate):
+            try:
+                op = x.on(*cirq.LineQid.for_gate(x))
+            except Exception:      # noqa
+                op = None
+        if op is not None:
+            try:
+                fc = cirq.FrozenCircuit(op)
+                inner = cirq.CircuitOperation(fc)
+                out.append([cirq.Circuit(op, inner), fc, {'a': fc, 'b': [inner, cirq.FrozenCircuit(inner, op)]}])
+                self.stats['nested_in_circuits'] += 1
+            except Exception:      # noqa
+                self.stats['circuit_nesting_unavailable'] += 1
+        return out
+
+    def c_nested(self, x):
+        cirq = self.cirq
+        for n in self.nestings(x):
+            text = cirq.to_json(n)
+            back = cirq.read_json(json_text=text)
+            if not _deep_eq(back, n):
+                return f'nested value does not round-trip: {n!r}'[:400]
+            if not frozen_sharing_ok(cirq, back):
+                return 'a shared FrozenCircuit was duplicated by the round trip'
+            if text != cirq.to_json(n, cls=_nocache_encoder(cirq)):
+                self.stats['id_cache_changed_output'] += 1
+                return 'the id()-keyed encoder cache changed the document'
+        return None
+
+    def check(self, name, x, origin, info=None):
+        """all checks on one instance; returns list of (check, detail)"""
+        fails = []
+        self._y, self._text = None, None
+        label = f'{name}:{origin}'
+        for chk, f in (('json', lambda: self.c_json(x)), ('hash', lambda: self.c_hash(x)), ('repr', lambda: self.c_repr(x, name)),
+                       ('behaviour', lambda: self.c_behaviour(x)), ('pickle', lambda: self.c_pickle(x, label)),
+                       ('copy', lambda: self.c_copy(x, False)), ('deepcopy', lambda: self.c_copy(x, True)),
+                       ('nested', lambda: self.c_nested(x))):
+            try:
+                with time_limit(20), warnings.catch_warnings():
+                    warnings.simplefilter('ignore')
+                    r = f()
+            except _Timeout:
+                r = None
+                self.stats['timeouts'] += 1
+            except Exception as e:      # noqa
+                r = f'{type(e).__name__}: {e}'[:300]
+            if r is not None:
+                fails.append((chk, r))
+        return fails
+
+
+def _deep_eq(a, b):
+    if isinstance(a, (list, tuple)) and isinstance(b, (list, tuple)):
+        return len(a) == len(b) and all(_deep_eq(x, y) for x, y in zip(a, b))
+    if isinstance(a, dict) and isinstance(b, dict):
+        return list(a) == list(b) and all(_deep_eq(a[k], b[k]) for k in a)
+    return _safe_eq(a, b)
+
+
+_NOCACHE = {}
+
+
+def _nocache_encoder(cirq):
+    """CirqEncoder with the id()-keyed cache switched off: the reference for what the cache may not change."""
+    if 'cls' not in _NOCACHE:
+        from cirq.protocols.json_serialization import CirqEncoder
+
+        class _Never(dict):
+            def get(self, k, default=None):
+                return None
+
+        class NoCacheEncoder(CirqEncoder):
+            def __init__(self, *a, **kw):
+                super().__init__(*a, **kw)
+                self._cache = _Never()
+        _NOCACHE['cls'] = NoCacheEncoder
+    return _NOCACHE['cls']
+
+
+def stream_classes(ctx, mods, specs, pop):
+    cirq = mods['cirq']
+    quick = ctx.tier == 'quick'
+    keep, tries, max_stored = (4, 16, 3) if quick else (16, 80, 12)
+    mut = Mutator(mods, pop, ctx.rng)
+    ex = Explorer(ctx, mods, pop)
+    custom = custom_instances(mods, pop)
+    table = dict(classes=0, factories=0, with_mutants=[], stored_only=[], skipped=[], gaps=[], custom=[],
+                 factories_without_document=[], mutants=0, instances=0)
+    fail_by_sig = {}
+    for e in pop.entries:
+        name, label = e['name'], f"{e['spec']}/{e['name']}"
+        insts = [(x, f'stored[{i}]') for i, x in enumerate(e['stored'][:max_stored])]
+        if e['is_type']:
+            table['classes'] += 1
+        else:
+            table['factories'] += 1
+            if not e['has_doc']:
+                table['factories_without_document'].append(label)
+            if not insts:
+                continue
+        if not insts and name in custom:
+            insts = [(x, f'custom[{i}]') for i, x in enumerate(custom[name])]
+            table['custom'].append(label)
+        if not insts:
+            if e['status']:
+                table['skipped'].append(dict(cls=label, reason=e['status']))
+            else:
+                table['gaps'].append(label)
+                ctx.violation(f'harness-gap:{label}', f'registered class {label} has neither a stored example nor a generator', dict(kind='gap', cls=label), found_input=False)
+            continue
+        nmut = 0
+        mutated = []
+        for x, origin in list(insts):
+            if nmut >= keep or not hasattr(x, '_json_dict_'):
+                if not hasattr(x, '_json_dict_'):
+                    for i, a in enumerate(mut.alts(x)[:keep - nmut]):
+                        mutated.append((a, f'{origin}~alt{i}', dict(field='<value>', value=repr(a)[:80])))
+                        nmut += 1
+                continue
+            for m, info in mut.mutants(x, keep=keep - nmut, tries=tries):
+                mutated.append((m, f'{origin}~{info["field"]}', info))
+                nmut += 1
+        table['mutants'] += nmut
+        (table['with_mutants'] if nmut else table['stored_only']).append(label)
+        for x, origin, *rest in [(a, b) for a, b in insts] + mutated:
+            info = rest[0] if rest else None
+            table['instances'] += 1
+            fails = ex.check(name, x, origin, info)
+            try:
+                key = label + '|' + repr(x)[:300]
+            except Exception:      # noqa
+                key = label + '|' + origin
+            ctx.count('classes', key, True, sample=dict(cls=label, origin=origin, mutated=info, value=_short_repr(x)))
+            for chk, detail in fails:
+                sig = f'class:{label}:{chk}'
+                if sig not in fail_by_sig:
+                    fail_by_sig[sig] = (x, origin, detail)
+                    ctx.violation(sig, f'{label} ({origin}) {chk}: {detail}'[:700], _replay_of(cirq, label, x, chk, origin))
+    table['repr_needs_unqualified_names'] = sorted(ex.repr_lenient_classes)
+    table['checks'] = dict(ex.stats)
+    for k in ('with_mutants', 'stored_only', 'custom', 'gaps'):
+        table['n_' + k] = len(table[k])
+    ctx.cov['classes'] = table
+    return ex
+
+
+def _short_repr(x):
+    try:
+        return repr(x)[:200]
+    except Exception as e:      # noqa
+        return f'<repr raises {type(e).__name__}>'
+
+
+def _replay_of(cirq, label, x, chk, origin):
+    d = dict(kind='class', cls=label, check=chk, origin=origin, repr=_short_repr(x))
+    try:
+        d['pickle_b64'] = base64.b64encode(pickle.dumps(x)).decode()
+    except Exception:      # noqa
+        try:
+            d['json_text'] = cirq.to_json(x)
+        except Exception:      # noqa
+            pass
+    return d
